@@ -464,9 +464,12 @@ class PeerConnection:
     def dwa_wait_time(self) -> int:
         """Time spent waiting for DWA, in seconds. If no DWR has been sent,
         returns zero."""
-        if not self.is_waiting_for_dwa:
+        # read once: the read thread clears the timestamp when the DWA
+        # comes in
+        last_dwr = self._last_dwr
+        if last_dwr <= 0:
             return 0
-        return int(time.time()) - self._last_dwr
+        return int(time.time()) - last_dwr
 
     @property
     def ce_wait_time(self) -> int:
